@@ -11,7 +11,10 @@
    input, which is the same thing.
 
    [policy]: [PreFix] is the decoder before commit 41ef764 (no check of the filename
-   element), [Fixed] is the decoder as it is now. *)
+   element); [Fix1] is the decoder of 41ef764 (filename elements are checked, but an entry
+   that no filename element precedes keeps the name "" anywhere in the archive); [Fixed] is
+   the decoder as it is now (b7b089e: after the first returned node an entry without a
+   name is rejected -- the [started] flag). *)
 From Coq Require Import List NArith Bool.
 From DS Require Import Base.Bytes Base.GoPath.
 Import ListNotations.
@@ -29,7 +32,7 @@ Inductive elem :=
 | EUnsupported                             (* FormatIndex, FormatTable: "unsupported element" *)
 | EBad.                                    (* the element decoder returned an error *)
 
-Inductive policy := PreFix | Fixed.
+Inductive policy := PreFix | Fix1 | Fixed.
 
 Record nmeta := mkNMeta { n_mode : N; n_uid : N; n_gid : N; n_mtime : N; n_xattrs : list (bytes * bytes) }.
 
@@ -80,10 +83,23 @@ Inductive nres :=
 | NEnd
 | NErr.
 
-(* the code after the loop *)
-Definition finish_entry (dir : bytes) (l : locals) (e : N * N * N * N) (rest : list elem) : nres :=
+(* if name == "" && a.started { return nil, InvalidFormat{"entry without a name"} } *)
+Definition nameless_rejected (pol : policy) (started : bool) (name : bytes) : bool :=
+  match pol, name with
+  | Fixed, [] => started
+  | _, _ => false
+  end.
+
+(* the filename check of 41ef764 *)
+Definition name_rejected (pol : policy) (name : bytes) : bool :=
+  match pol with PreFix => false | _ => bad_name name end.
+
+(* the code after the loop; [started] is a.started *)
+Definition finish_entry (pol : policy) (started : bool) (dir : bytes) (l : locals) (e : N * N * N * N)
+  (rest : list elem) : nres :=
   let '(mode, uid, gid, mtime) := e in
   let m := mkNMeta mode uid gid mtime (l_xattrs l) in
+  if nameless_rejected pol started (l_name l) then NErr else
   match l_payload l, l_device l, l_symlink l with
   | None, None, None =>
       let d := GoPath.join [dir; l_name l] in           (* a.dir = path.Join(a.dir, name) *)
@@ -94,7 +110,7 @@ Definition finish_entry (dir : bytes) (l : locals) (e : N * N * N * N) (rest : l
   end.
 
 (* the loop of ArchiveDecoder.Next; [dir] is a.dir *)
-Fixpoint next_loop (pol : policy) (dir : bytes) (l : locals) (inp : list elem) : nres :=
+Fixpoint next_loop (pol : policy) (started : bool) (dir : bytes) (l : locals) (inp : list elem) : nres :=
   match inp with
   | [] => NEnd                                           (* case nil: return nil, nil *)
   | c :: rest =>
@@ -102,72 +118,74 @@ Fixpoint next_loop (pol : policy) (dir : bytes) (l : locals) (inp : list elem) :
       | EEntry mode uid gid mtime =>
           match l_entry l with
           | Some _ => NErr
-          | None => next_loop pol dir (mkLocals (Some (mode, uid, gid, mtime)) (l_payload l) (l_symlink l)
+          | None => next_loop pol started dir (mkLocals (Some (mode, uid, gid, mtime)) (l_payload l) (l_symlink l)
                                                 (l_device l) (l_xattrs l) (l_name l)) rest
           end
-      | EOther => next_loop pol dir l rest
+      | EOther => next_loop pol started dir l rest
       | EPayload data =>
           match l_entry l with
           | None => NErr
-          | Some e => finish_entry dir (mkLocals (l_entry l) (Some data) (l_symlink l) (l_device l)
+          | Some e => finish_entry pol started dir (mkLocals (l_entry l) (Some data) (l_symlink l) (l_device l)
                                                  (l_xattrs l) (l_name l)) e rest
           end
       | EXAttr nv =>
           match l_entry l, split_nul nv with
           | Some _, Some (k, v) =>
-              next_loop pol dir (mkLocals (l_entry l) (l_payload l) (l_symlink l) (l_device l)
+              next_loop pol started dir (mkLocals (l_entry l) (l_payload l) (l_symlink l) (l_device l)
                                           (l_xattrs l ++ [(k, v)]) (l_name l)) rest
           | _, _ => NErr
           end
       | ESymlink t =>
           match l_entry l with
           | None => NErr
-          | Some _ => next_loop pol dir (mkLocals (l_entry l) (l_payload l) (Some t) (l_device l)
+          | Some _ => next_loop pol started dir (mkLocals (l_entry l) (l_payload l) (Some t) (l_device l)
                                                   (l_xattrs l) (l_name l)) rest
           end
       | EDevice major minor =>
           match l_entry l with
           | None => NErr
-          | Some _ => next_loop pol dir (mkLocals (l_entry l) (l_payload l) (l_symlink l) (Some (major, minor))
+          | Some _ => next_loop pol started dir (mkLocals (l_entry l) (l_payload l) (l_symlink l) (Some (major, minor))
                                                   (l_xattrs l) (l_name l)) rest
           end
       | EFilename name =>
           match l_entry l with
-          | Some e => finish_entry dir l e (c :: rest)   (* a.last = c; break loop *)
+          | Some e => finish_entry pol started dir l e (c :: rest)   (* a.last = c; break loop *)
           | None =>
-              if (match pol with Fixed => bad_name name | PreFix => false end) then NErr
-              else next_loop pol dir (mkLocals (l_entry l) (l_payload l) (l_symlink l) (l_device l)
+              if name_rejected pol name then NErr
+              else next_loop pol started dir (mkLocals (l_entry l) (l_payload l) (l_symlink l) (l_device l)
                                                (l_xattrs l) name) rest
           end
       | EGoodbye =>
           match l_entry l with
-          | Some e => finish_entry dir l e (c :: rest)   (* a.last = c; break loop *)
-          | None => next_loop pol (GoPath.dir dir) l rest (* a.dir = filepath.Dir(a.dir) *)
+          | Some e => finish_entry pol started dir l e (c :: rest)   (* a.last = c; break loop *)
+          | None => next_loop pol started (GoPath.dir dir) l rest (* a.dir = filepath.Dir(a.dir) *)
           end
       | EUnsupported => NErr
       | EBad => NErr
       end
   end.
 
-(* ArchiveDecoder.Next *)
-Definition archive_next (pol : policy) (dir : bytes) (inp : list elem) : nres := next_loop pol dir locals0 inp.
+(* ArchiveDecoder.Next; every returned node sets a.started *)
+Definition archive_next (pol : policy) (started : bool) (dir : bytes) (inp : list elem) : nres :=
+  next_loop pol started dir locals0 inp.
 
 (* NewArchiveDecoder: dir = "." *)
 Definition dir0 : bytes := [dot].
 
 (* every node the decoder yields for an element sequence (until the end or an error),
    with the raw entry names *)
-Fixpoint nodes_loop (fuel : nat) (pol : policy) (dir : bytes) (inp : list elem) : list (anode * bytes) :=
+Fixpoint nodes_loop (fuel : nat) (pol : policy) (started : bool) (dir : bytes) (inp : list elem)
+  : list (anode * bytes) :=
   match fuel with
   | O => []
   | S f =>
-      match archive_next pol dir inp with
-      | NNode n base dir' rest => (n, base) :: nodes_loop f pol dir' rest
+      match archive_next pol started dir inp with
+      | NNode n base dir' rest => (n, base) :: nodes_loop f pol true dir' rest
       | _ => []
       end
   end.
 Definition nodes_of (pol : policy) (inp : list elem) : list (anode * bytes) :=
-  nodes_loop (S (length inp)) pol dir0 inp.
+  nodes_loop (S (length inp)) pol false dir0 inp.
 
 (* a relative clean path from its components: "." for none *)
 Definition rel (cs : list bytes) : bytes := match cs with [] => [dot] | _ :: _ => join47 cs end.
